@@ -70,6 +70,9 @@ theorem C19_in_range (D ix : List Int) (ord : List Nat) (hp : ord.Perm (List.ran
   rw [e, prod_order D ord hp] at h
   exact h
 
+example : [2, 0, 1].Perm (List.range [4, 5, 6].length) ∧ InRange [4, 5, 6] [3, 0, 5] ∧ linear [4, 5, 6] [3, 0, 5] [2, 0, 1] = 5 + 6 * (3 + 4 * 0) := by
+  decide
+
 /-- (c) Different in-range index tuples get different linear indices. -/
 theorem C19_injective (D ix ix' : List Int) (ord : List Nat) (hp : ord.Perm (List.range D.length))
     (hr : InRange D ix) (hr' : InRange D ix') (he : linear D ix ord = linear D ix' ord) : ix = ix' := by
